@@ -41,6 +41,12 @@ def generate(rng: random.Random, tier: str):
         cases.append({'kind': 'cg', 'n': n, 'sys': rng.choice(['scaled_identity', 'lowrank', 'generic', 'generic']),
                       'start': rng.choice(['none', 'zero', 'exact', 'random']), 'budget': rng.randint(0, n + 3),
                       'tol': rng.choice(['0', '0', '1/10000', '5']), 'batch': rng.choice([1, 1, 1, 2, 3]), 'seed': rng.randrange(1 << 30)})
+    # small / large data: cg must not contain absolute thresholds (same run, scaled by a power of two)
+    for _ in range(60 if thorough else 14):
+        n = rng.randint(2, nmax)
+        cases.append({'kind': 'cg', 'n': n, 'sys': rng.choice(['lowrank', 'generic', 'generic']), 'start': rng.choice(['none', 'zero', 'random']),
+                      'budget': rng.randint(1, n + 2), 'tol': rng.choice(['0', '0', '1/10000']), 'batch': rng.choice([1, 1, 2]),
+                      'scale_exp': rng.choice([-30, -40, -60, 30]), 'seed': rng.randrange(1 << 30)})
     # budgets far beyond n with tolerance 0: the float run goes on after convergence until the residual underflows
     for _ in range(40 if thorough else 10):
         n = rng.randint(2, nmax)
@@ -76,8 +82,9 @@ def run(case, drv) -> Outcome:
     tol = float(Fraction(case['tol']))
     dtype = torch.complex128 if cplx else torch.float64
     Hop = mrpro.operators.EinsumOp(Hbatch.to(dtype))
-    b_in = b.to(dtype).clone()
-    x0_in = None if x0 is None else x0.to(dtype).clone()
+    sc = 2.0 ** case.get('scale_exp', 0)
+    b_in = (b * sc).to(dtype).clone()
+    x0_in = None if x0 is None else (x0 * sc).to(dtype).clone()
     b_copy, x0_copy = b_in.clone(), None if x0_in is None else x0_in.clone()
     b_ver, x0_ver = b_in._version, None if x0_in is None else x0_in._version
     trace = []
@@ -85,9 +92,14 @@ def run(case, drv) -> Outcome:
     def cb(st):
         trace.append((st['solution'][0].clone(), st['residual'].clone(), st['iteration_number']))
 
-    st, x = call(lambda: cg(Hop, b_in, initial_value=x0_in, max_iterations=case['budget'], tolerance=tol, callback=cb))
+    st, x = call(lambda: cg(Hop, b_in, initial_value=x0_in, max_iterations=case['budget'], tolerance=tol * sc, callback=cb))
     if st != 'ok':
         return Outcome(key=('cg-raises', str(case)), corr=f'cg raised {x} for {case}')
+    # cg is homogeneous (theorem C06.cg_homogeneous): the run on (s b, s x0, s tol) is s times the run on (b, x0, tol); s is a
+    # power of two, so dividing by it is exact and everything below is compared on the unscaled problem
+    x_ret = x
+    x = x / sc
+    trace = [(xi / sc, ri / sc, ki) for xi, ri, ki in trace]
     # ---- model (exact)
     tol2 = None if case['tol'] == '0' else frac_str(Fraction(case['tol']) ** 2)
     m = drv.call({'op': 'cg', 'n': N, 'H': tensor_strs(Hd), 'b': tensor_strs(b.reshape(-1)), 'x0': None if x0 is None else tensor_strs(x0.reshape(-1)),
@@ -165,11 +177,11 @@ def run(case, drv) -> Outcome:
     # inputs untouched
     if not torch.equal(b_in, b_copy) or b_in._version != b_ver or (x0_in is not None and (not torch.equal(x0_in, x0_copy) or x0_in._version != x0_ver)):
         viol = viol or {'signature': 'cg:mutates-input', 'what': f'cg modified right_hand_side or initial_value in place ({case})'}
-    if x0_in is not None and x.data_ptr() == x0_in.data_ptr() or x.data_ptr() == b_in.data_ptr():
+    if x0_in is not None and x_ret.data_ptr() == x0_in.data_ptr() or x_ret.data_ptr() == b_in.data_ptr():
         viol = viol or {'signature': 'cg:aliases-input', 'what': f'cg returns a tensor sharing memory with an input ({case})'}
-    return Outcome(key=('cg', n, batch, case['sys'], case['start'], case['budget'], case['tol'], case['seed'] % 17), corr=corr, viol=viol,
+    return Outcome(key=('cg', n, batch, case['sys'], case['start'], case['budget'], case['tol'], case.get('scale_exp', 0), case['seed'] % 17), corr=corr, viol=viol,
                    branches=[f'sys:{case["sys"]}', f'start:{case["start"]}', f'tol:{case["tol"]}', f'model-reason:{m.get("reason", "nan")}',
-                             f'batch:{batch}', 'complex' if cplx else 'real'],
+                             f'batch:{batch}', 'complex' if cplx else 'real', f'scale:2^{case.get("scale_exp", 0)}'],
                    sample={**case, 'iterations_run': len(trace), 'model_reason': m.get('reason')})
 
 
